@@ -200,9 +200,21 @@ def R3_route_or_error(ctx):
         # `dst_opt.map(|dst| backtrack(src, dst, &tree)).transpose()?`: the same thing with the Option adaptor
         _backtrack_adaptor_form(ctx, F, rv, tmv, ras[0])
         return
-    if len(bts) != 1 or len(ras) != 1:
+    if len(bts) != len(ras) or not bts:
         raise AnchorMissing("run_vertex_oriented: backtrack/run_a_star calls (%d/%d)" % (len(bts), len(ras)))
-    bt, ra = bts[0], ras[0]
+    # (one search + backtrack pair per algorithm arm that runs the search itself: usually one, two when the Dijkstra arm does
+    # not delegate to the A* arm)
+    pairs = []
+    for ra_ in ras:
+        mine = [bt_ for bt_ in bts if rv.dominates(ra_.bb, bt_.bb)]
+        if len(mine) != 1:
+            raise AnchorMissing("run_vertex_oriented: a search without exactly one backtrack after it")
+        pairs.append((mine[0], ra_))
+    for bt, ra in pairs:
+        _search_and_backtrack(ctx, rv, tmv, bt, ra)
+
+
+def _search_and_backtrack(ctx, rv, tmv, bt, ra):
     pr = try_propagation(rv, ra, tmv)
     ctx.check(pr["kind"] == "propagated", "search-error-propagated", "the Err of run_a_star is not propagated: %s" % pr["detail"], ra.where())
     pr = try_propagation(rv, bt, tmv)
